@@ -25,7 +25,7 @@ Definition sL : str := [cL].
 Definition sLm : str := [cL; cMinus].
 Definition sMinus : str := [cMinus].
 Definition sMinusL : str := [cMinus; cL].
-Definition sCommaEven : str := [44; 101; 118; 101; 110]%N.
+Definition sComma : str := [cComma].
 
 Fixpoint str_eqb (a b : str) : bool :=
   match a, b with
@@ -119,23 +119,18 @@ Definition reT : matcher :=
         (m_cat (m_lit sL) (m_opt (m_cat (m_lit sMinus) (m_cat m_digits1 (m_opt (m_lit sMinus)))))))).
 (* [!n]?( ... ) *)
 Definition reNT : matcher := m_cat (m_opt (m_class [cBang; cN])) reT.
-(* the group "(," + e + ")" where e = \Qeven\E|\Qodd\E|[!n]?(...): the alternation binds weaker than
-   the concatenation with ",", so the group is  ,even | odd | [!n]?(...)  *)
-Definition reG : matcher := m_alt (m_lit sCommaEven) (m_alt (m_lit sOdd) reNT).
+(* e = (?:\Qeven\E|\Qodd\E|[!n]?(...)) *)
+Definition reE : matcher := m_alt (m_lit sEven) (m_alt (m_lit sOdd) reNT).
+(* the group (,e) *)
+Definition reG : matcher := m_cat (m_lit sComma) reE.
 
-(* exp = "^" + e + "(," + e + ")*$"  parses as   ^even  |  odd  |  [!n]?(...)(group)*$
-   and MatchString searches for a match starting anywhere. *)
-Definition alt1 (s : str) : bool := has_prefix sEven s.             (* only at offset 0 because of ^ *)
-Definition alt2_at (s : str) : bool := has_prefix sOdd s.
 Definition is_nil (s : str) : bool := match s with [] => true | _ :: _ => false end.
-(* alternative 3 at the suffix t of the subject s (len = length s): [!n]?(...) then (group)* up to $ *)
-Definition alt3_at (tab : list bool) (len : nat) (t : str) : bool :=
-  existsb (fun r => nth (len - length r) tab false) (reNT t).
-Fixpoint search (p : str -> bool) (s : str) : bool :=
-  p s || match s with [] => false | _ :: r => search p r end.
+
+(* exp = "^" + e + "(," + e + ")*$" with e a (non-capturing) group: anchored at both ends, so
+   MatchString is a match of the whole string: e, then (group)* up to the end. *)
 Definition re_match (s : str) : bool :=
-  alt1 s || let tab := star_tab reG s in
-            search (fun t => alt2_at t || alt3_at tab (length s) t) s.
+  let tab := star_tab reG s in
+  existsb (fun r => nth (length s - length r) tab false) (reE s).
 
 (* ParsePageSelection: None = syntax error *)
 Definition ParsePageSelection (s : str) : option (list str) :=
